@@ -19,7 +19,7 @@ var RouteTags = []string{"poll://g/i", "http://h/x", `{"type":"poll","data":{"gr
 func Hostile() {
 	SchedIds = append(SchedIds, "s&<", " s pad ")
 	// ids are whitespace-sensitive: templates and schedule ids with leading / trailing blanks render to ids with those blanks
-	IdTemplates = append(IdTemplates, "x.{{.timestamp", " {{.id}}.{{.timestamp}} ", "{{.timestamp}}-{{.id}}")
+	IdTemplates = append(IdTemplates, "x.{{.timestamp", " {{.id}}.{{.timestamp}} ", "{{.timestamp}}-{{.id}}", "{{.id.x}}")
 	RouteTags = append(RouteTags, "null")
 	// ids whose derived callback ids collide: (root a, promise b:c) and (root a:b, promise c) both give __resume:a:b:c
 	ApiPromiseIds = append(ApiPromiseIds, "a", "c")
